@@ -14,7 +14,9 @@ MCSpec == MCInit /\ [][Next]_vars
 FairSpec == MCSpec /\ WF_vars(Next)
 
 TypeOK ==
-  /\ S.st \in [Nodes(cfg) -> {"idle", "queued", "running", "cancelling", "ok", "exc", "cancelled"}]
+  /\ S.st \in [Nodes(cfg) -> {"idle", "queued", "running", "cancelling", "ok", "exc", "cancelled", "selfc"}]
+  /\ S.xs \in {"none", "running", "done"}
+  /\ \A n \in Nodes(cfg) : S.st[n] = "selfc" => IsJob(cfg, n) /\ cfg.out[n] = "selfc"
   /\ S.sh \in [Nodes(cfg) -> {"none", "running", "creq", "cing", "done", "cancelled"}]
   /\ S.proc \subseteq Nodes(cfg)
   /\ \A s \in Scheds(cfg) : S.pc[s] \in {"idle", "main", "tidy", "shut", "over"}
